@@ -107,11 +107,22 @@ fn body_strategy(max_payload: usize, max_chunk: usize) -> BoxedStrategy<Body> {
     .boxed()
 }
 
+/// Largest connectionless payload: 1400-byte datagram minus the connless header (6 bytes in 0.6, 9 in 0.7).
+pub fn connless_max(is7: bool) -> u16 {
+    if is7 {
+        1400 - 9
+    } else {
+        1400 - 6
+    }
+}
+
 pub fn pcase_strategy(is7: bool) -> BoxedStrategy<PCase> {
     let ack = prop_oneof![3 => 0u16..1024, 1 => Just(0u16), 1 => Just(1023u16), 1 => Just(256u16), 1 => Just(255u16)];
     let token = if is7 { token_strategy().prop_map(Some).boxed() } else { proptest::option::weighted(0.6, token_strategy()).boxed() };
     let max_payload = if is7 { 1393 } else { 1393 };
-    let connless_len = prop_oneof![2 => 0u16..64, 2 => 0u16..=1390, 1 => (0u16..3).prop_map(|d| 1390 - d)];
+    // "payload up to the size limit": a datagram is at most 1400 bytes, the connless header takes 6 (0.6) / 9 (0.7)
+    let cmax: u16 = connless_max(is7);
+    let connless_len = prop_oneof![2 => 0u16..64, 2 => 0u16..=cmax, 2 => (0u16..8).prop_map(move |d| cmax - d)];
     prop_oneof![
         1 => (0u8..5, connless_len, any::<u8>(), token_strategy(), token_strategy())
             .prop_map(|(family, len, seed, token, response_token)| PCase::Connless { family, len, seed, token, response_token }),
@@ -476,7 +487,7 @@ fn every_length(i: u64) -> Result<bool, String> {
     let kind = (i >> 2) % 3;
     let len = (i >> 2) / 3;
     let c = match kind {
-        0 => PCase::Connless { family, len: len.min(1390) as u16, seed: len as u8, token: [1, 2, 3, 4], response_token: [5, 6, 7, 8] },
+        0 => PCase::Connless { family, len: len.min(connless_max(is7) as u64) as u16, seed: len as u8, token: [1, 2, 3, 4], response_token: [5, 6, 7, 8] },
         1 => PCase::Chunks { ack: (len % 1024) as u16, token: Some([9, 9, 9, len as u8]), request_resend: len % 2 == 0, body: Body::Raw { num_chunks: 1, family, len: len as u16, seed: len as u8 } },
         _ => PCase::Chunks { ack: 0, token: None, request_resend: false, body: Body::Raw { num_chunks: 3, family, len: len as u16, seed: (len >> 3) as u8 } },
     };
